@@ -546,9 +546,19 @@ def param_reorder(real_sig, tpl_sig):
         tp, tps, ts = _split_params(tpl_sig)
     except (ValueError, IndexError):
         return None
-    if rp != tp or rs != ts or rps == tps or sorted(rps) != sorted(tps) or len(set(rps)) != len(rps):
+    if rp != tp or rs != ts or rps == tps or len(set(rps)) != len(rps):
         return None
-    return rps
+    if sorted(rps) == sorted(tps):
+        return rps
+    # same parameter names in the same order, differing only in the WIDTH of primitive integer types: the contract is
+    # written over mathematical integers (`x as int`), so the real declaration is adopted and re-verified
+    def split(p):
+        n, _, t = p.partition(':')
+        return n.strip(), t.strip()
+    ints = INT_TYPES
+    if len(rps) == len(tps) and all(split(a)[0] == split(b)[0] and (split(a)[1] == split(b)[1] or (split(a)[1] in ints and split(b)[1] in ints)) for a, b in zip(rps, tps)):
+        return rps
+    return None
 
 
 def template_sig_before(out_text, fn_name):
